@@ -330,7 +330,7 @@ func TestC19(t *testing.T) {
 		return sb.String()
 	})
 	p = c.rec.NewPart("rapid_url_encodings", "rapid: scheme x per-byte encoding draw x junk x inserted NUL/LF x rest (values outside the domain are recognised by the oracle and not counted)", true, false, "")
-	c.Rapid(p, 8, pick(25000, 700000), func(rt *rapid.T, sh int) ev.Case {
+	c.Rapid(p, 8, pick(100000, 900000), func(rt *rapid.T, sh int) ev.Case {
 		return ev.Case{Kind: "url_sampled", N: rapid.IntRange(0, 1000).Draw(rt, "attr"), In: ug.Draw(rt, "v")}
 	})
 
@@ -350,7 +350,7 @@ func TestC19(t *testing.T) {
 	p = c.rec.NewPart("decoder_boundaries", "references around 0x1000FE / 0x1000FF / 0x100100 in decimal and hex, with and without ';', leading zeros, 64-bit wrap-around candidates", false, true, "")
 	c.ParRange(p, int64(len(bnd)), func(w *Worker, i int64) { w.Judge(ev.Case{Kind: "decode", In: bnd[i]}) })
 	p = c.rec.NewPart("rapid_decoder", "rapid: '&#' [xX]? digits{0..24} terminator rest, and arbitrary strings over the decoder alphabet", true, false, "")
-	c.Rapid(p, 4, pick(25000, 500000), func(rt *rapid.T, sh int) ev.Case {
+	c.Rapid(p, 4, pick(80000, 700000), func(rt *rapid.T, sh int) ev.Case {
 		if rapid.Bool().Draw(rt, "free") {
 			return ev.Case{Kind: "decode", In: rapid.StringOfN(rapid.SampledFrom([]rune("&#xX;0123456789aAfFgG \x00j")), 0, 16, -1).Draw(rt, "in")}
 		}
